@@ -406,3 +406,293 @@ Section NextClose.
     - symmetry. apply qsum_zero. intros dp Hin. unfold NX. rewrite (day_postings_date d dp Hd Hin), En. reflexivity.
   Qed.
 End NextClose.
+
+(* ------------------------------------------------------------ Part D: the specification per posting *)
+
+Lemma qsum_plus {A} (f g : A -> Q) l : qsum (fun x => f x + g x) l == qsum f l + qsum g l.
+Proof. unfold qsum. induction l as [|x l IH]; cbn [fold_right]; [ring|]. rewrite IH. ring. Qed.
+
+Lemma qsum_scale {A} (c : Q) (f : A -> Q) l : qsum (fun x => c * f x) l == c * qsum f l.
+Proof. unfold qsum. induction l as [|x l IH]; cbn [fold_right]; [ring|]. rewrite IH. ring. Qed.
+
+Lemma qsum_const0 {A} (l : list A) : qsum (fun _ => 0) l == 0.
+Proof. apply qsum_zero. intros; reflexivity. Qed.
+
+Lemma qsum_swap {A B} (F : A -> B -> Q) la lb :
+  qsum (fun a => qsum (fun b => F a b) lb) la == qsum (fun b => qsum (fun a => F a b) la) lb.
+Proof.
+  induction la as [|a la IH].
+  - unfold qsum at 1. cbn [fold_right]. symmetry. apply qsum_const0.
+  - unfold qsum at 1. cbn [fold_right]. fold (qsum (fun a0 => qsum (fun b => F a0 b) lb) la). rewrite IH.
+    rewrite <- qsum_plus. apply qsum_ext. intros b _. reflexivity.
+Qed.
+
+(* what one entry of the ledger adds to the cell (row, c0, col0) *)
+Definition s_ind (cfg : balance_cfg) (row : account) (c0 : commodity) (col0 : Z) (col : Z) (a : account) (c : commodity) : Q :=
+  if cfg_where cfg a c then
+    match shorten (bc_mapping cfg) (remap (bc_remap cfg) a) with
+    | ShAcc a' => if (col =? col0)%Z && acc_eqb row a' && str_eqb c c0 then 1 else 0
+    | _ => 0
+    end
+  else 0.
+
+Definition e_val (cfg : balance_cfg) (row : account) (c0 : commodity) (col0 : Z) (e : entry) : Q :=
+  s_ind cfg row c0 col0 (fst (fst (fst e))) (snd (fst (fst e))) (snd (fst e)) * dvalue (snd e).
+
+Lemma period_amount_entries cfg es row c col :
+  dvalue (period_amount (mapped_entries cfg es) (acc_eqb row) c col) == qsum (e_val cfg row c col) es.
+Proof.
+  unfold period_amount. rewrite dvalue_dsum, qsum_concat_map.
+  unfold mapped_entries. rewrite qsum_concat_map.
+  apply qsum_ext. intros [[[col' a] c'] v] _. unfold e_val, s_ind. cbn [fst snd].
+  destruct (cfg_where cfg a c'); [|cbn; ring].
+  destruct (shorten (bc_mapping cfg) (remap (bc_remap cfg) a)) as [a'| |]; try (cbn; ring).
+  unfold qsum. cbn [fold_right].
+  destruct ((col' =? col)%Z && acc_eqb row a' && str_eqb c' c); cbn [fold_right]; ring.
+Qed.
+
+Section SpecClose.
+  Variable cfg : balance_cfg.
+  Variable row : account.
+  Variable c0 : commodity.
+  Variable col0 : Z.
+  Variable posts : list (Z * posting).
+  Variable keys : list (account * commodity).
+
+  Definition GS (col : Z) (a : account) (c : commodity) : Q :=
+    s_ind cfg row c0 col0 col equity_account c - s_ind cfg row c0 col0 col a c.
+
+  Fixpoint CE (prev : Z) (ps : list period) : Q :=
+    match ps with
+    | [] => 0
+    | p :: rest =>
+      qsum (fun k => GS (p_end p) (fst k) (snd k) * dvalue (sum_between posts k prev (p_start p - 1))) keys
+      + CE (p_start p) rest
+    end.
+
+  Lemma closing_entries_CE : forall ps prev,
+    qsum (e_val cfg row c0 col0) (closing_entries posts keys prev ps) == CE prev ps.
+  Proof.
+    induction ps as [|p ps IH]; intros prev; cbn [closing_entries CE]; [reflexivity|].
+    rewrite qsum_app, IH, qsum_concat_map. apply Qplus_comp; [|reflexivity].
+    apply qsum_ext. intros [a c] _. cbn [fst snd].
+    destruct (is_zero (sum_between posts (a, c) prev (p_start p - 1))) eqn:Ez.
+    - apply is_zero_value in Ez. rewrite Ez. unfold qsum. cbn [fold_right]. ring.
+    - unfold qsum, e_val, GS. cbn [fold_right fst snd]. rewrite dvalue_neg. unfold equity_account. ring.
+  Qed.
+End SpecClose.
+
+(* -- keys -- *)
+Definition keq (k x : account * commodity) : bool := acc_eqb (fst k) (fst x) && str_eqb (snd k) (snd x).
+Definition key_of (dp : Z * posting) : account * commodity := (p_acc (snd dp), p_com (snd dp)).
+
+Lemma keq_spec k x : keq k x = true <-> acc_name (fst k) = acc_name (fst x) /\ snd k = snd x.
+Proof. unfold keq. rewrite andb_true_iff, acc_eqb_name, CheckLemmas.str_eqb_eq. reflexivity. Qed.
+
+Lemma keq_refl k : keq k k = true.
+Proof. apply keq_spec. split; reflexivity. Qed.
+
+Lemma keq_sym k x : keq k x = keq x k.
+Proof.
+  destruct (keq k x) eqn:E1, (keq x k) eqn:E2; try reflexivity.
+  - apply keq_spec in E1. destruct E1 as [A B]. assert (H : keq x k = true) by (apply keq_spec; split; congruence). congruence.
+  - apply keq_spec in E2. destruct E2 as [A B]. assert (H : keq k x = true) by (apply keq_spec; split; congruence). congruence.
+Qed.
+
+Lemma keq_trans a b c : keq a b = true -> keq b c = true -> keq a c = true.
+Proof. rewrite !keq_spec. intros [A B] [C D]. split; congruence. Qed.
+
+Lemma keq_eq k x : account_ok (fst k) = true -> account_ok (fst x) = true -> keq k x = true -> k = x.
+Proof.
+  intros Hk Hx H. apply keq_spec in H. destruct H as [A B]. destruct k, x. cbn [fst snd] in *.
+  f_equal; [apply acc_name_inj; assumption|exact B].
+Qed.
+
+Lemma add_key_spec k l : add_key k l = if existsb (keq k) l then l else l ++ [k].
+Proof.
+  induction l as [|x l IH]; cbn [add_key existsb app]; [reflexivity|].
+  change (acc_eqb (fst k) (fst x) && str_eqb (snd k) (snd x)) with (keq k x).
+  destruct (keq k x); cbn [orb]; [reflexivity|]. rewrite IH. destruct (existsb (keq k) l); reflexivity.
+Qed.
+
+Definition kcount (k0 : account * commodity) (ks : list (account * commodity)) : Q :=
+  qsum (fun k => if keq k0 k then 1 else 0) ks.
+
+Definition knodup (ks : list (account * commodity)) : Prop :=
+  forall k0, kcount k0 ks == if existsb (keq k0) ks then 1 else 0.
+
+Lemma knodup_add k ks : knodup ks -> knodup (add_key k ks).
+Proof.
+  intros H k0. rewrite add_key_spec. destruct (existsb (keq k) ks) eqn:E; [apply H|].
+  unfold kcount. rewrite qsum_app, existsb_app. fold (kcount k0 ks). rewrite (H k0).
+  unfold qsum. cbn [fold_right existsb]. rewrite orb_false_r.
+  destruct (keq k0 k) eqn:Ek.
+  - assert (En : existsb (keq k0) ks = false).
+    { destruct (existsb (keq k0) ks) eqn:E2; [|reflexivity]. exfalso.
+      apply existsb_exists in E2. destruct E2 as (x & Hx & Hkx).
+      assert (Hc : existsb (keq k) ks = true).
+      { apply existsb_exists. exists x. split; [exact Hx|]. apply (keq_trans k k0 x); [rewrite keq_sym; exact Ek|exact Hkx]. }
+      congruence. }
+    rewrite En. cbn [orb]. ring.
+  - rewrite orb_false_r. destruct (existsb (keq k0) ks); ring.
+Qed.
+
+Definition span_dp (sp : period) (dp : Z * posting) : bool := in_span sp (fst dp).
+
+Definition key_step (sp : period) (l : list (account * commodity)) (dp : Z * posting) : list (account * commodity) :=
+  if span_dp sp dp && closable_dp dp then add_key (key_of dp) l else l.
+
+Lemma closable_keys_fold sp posts : closable_keys sp posts = fold_left (key_step sp) posts [].
+Proof.
+  unfold closable_keys. generalize (@nil (account * commodity)). induction posts as [|[d p] posts IH]; intros l; cbn [fold_left]; [reflexivity|].
+  rewrite IH. reflexivity.
+Qed.
+
+Lemma keys_nodup sp : forall posts acc, knodup acc -> knodup (fold_left (key_step sp) posts acc).
+Proof.
+  induction posts as [|dp posts IH]; intros acc H; cbn [fold_left]; [exact H|].
+  apply IH. unfold key_step. destruct (span_dp sp dp && closable_dp dp); [apply knodup_add|]; exact H.
+Qed.
+
+Lemma existsb_add_key k0 k l : existsb (keq k0) l = true -> existsb (keq k0) (add_key k l) = true.
+Proof. intros H. rewrite add_key_spec. destruct (existsb (keq k) l); [exact H|]. rewrite existsb_app, H. reflexivity. Qed.
+
+Lemma existsb_add_key_self k l : existsb (keq k) (add_key k l) = true.
+Proof.
+  rewrite add_key_spec. destruct (existsb (keq k) l) eqn:E; [exact E|].
+  rewrite existsb_app. cbn [existsb]. rewrite keq_refl, orb_true_r. reflexivity.
+Qed.
+
+Lemma keys_mono sp k0 : forall posts acc,
+  existsb (keq k0) acc = true -> existsb (keq k0) (fold_left (key_step sp) posts acc) = true.
+Proof.
+  induction posts as [|dp posts IH]; intros acc H; cbn [fold_left]; [exact H|].
+  apply IH. unfold key_step. destruct (span_dp sp dp && closable_dp dp); [apply existsb_add_key|]; exact H.
+Qed.
+
+Lemma keys_complete sp dp : forall posts acc,
+  In dp posts -> span_dp sp dp = true -> closable_dp dp = true ->
+  existsb (keq (key_of dp)) (fold_left (key_step sp) posts acc) = true.
+Proof.
+  induction posts as [|x posts IH]; intros acc Hin Hs Hc; [destruct Hin|]. cbn [fold_left].
+  destruct Hin as [->|Hin]; [|apply IH; assumption].
+  apply keys_mono. unfold key_step. rewrite Hs, Hc. cbn [andb]. apply existsb_add_key_self.
+Qed.
+
+Lemma keys_sound sp k : forall posts acc,
+  In k (fold_left (key_step sp) posts acc) ->
+  In k acc \/ exists dp, In dp posts /\ k = key_of dp /\ span_dp sp dp = true /\ closable_dp dp = true.
+Proof.
+  induction posts as [|x posts IH]; intros acc Hin; cbn [fold_left] in Hin; [left; exact Hin|].
+  destruct (IH _ Hin) as [H|(dp & H1 & H2)].
+  - unfold key_step in H. destruct (span_dp sp x && closable_dp x) eqn:E; [|left; exact H].
+    rewrite add_key_spec in H. destruct (existsb (keq (key_of x)) acc); [left; exact H|].
+    apply in_app_or in H. destruct H as [H|[<-|[]]]; [left; exact H|].
+    right. exists x. apply andb_true_iff in E. destruct E. repeat split; try assumption. left; reflexivity.
+  - right. exists dp. split; [right; exact H1|exact H2].
+Qed.
+
+Lemma sum_between_value posts k lo hi :
+  dvalue (sum_between posts k lo hi) ==
+  qsum (fun dp => if ((lo <=? fst dp) && (fst dp <=? hi))%Z && keq (key_of dp) k then dvalue (p_qty (snd dp)) else 0) posts.
+Proof.
+  unfold sum_between. rewrite dvalue_dsum, qsum_concat_map. apply qsum_ext. intros [d p] _.
+  unfold keq, key_of. cbn [fst snd]. rewrite andb_assoc.
+  destruct ((lo <=? d)%Z && (d <=? hi)%Z && acc_eqb (p_acc p) (fst k) && str_eqb (p_com p) (snd k));
+    unfold qsum; cbn [fold_right]; ring.
+Qed.
+
+(* the sum over the keys of the per-key sums is the sum over the postings *)
+Lemma regroup sp posts (g : account -> commodity -> Q) lo hi :
+  posts_ok posts -> (forall d, (lo <= d <= hi)%Z -> in_span sp d = true) ->
+  qsum (fun k => g (fst k) (snd k) * dvalue (sum_between posts k lo hi)) (closable_keys sp posts)
+  == qsum (fun dp => if ((lo <=? fst dp) && (fst dp <=? hi))%Z && closable_dp dp
+                     then g (p_acc (snd dp)) (p_com (snd dp)) * dvalue (p_qty (snd dp)) else 0) posts.
+Proof.
+  intros Hok Hr. rewrite closable_keys_fold. set (keys := fold_left (key_step sp) posts []).
+  assert (Hnd : knodup keys).
+  { apply keys_nodup. intros k0. unfold kcount, qsum. cbn. reflexivity. }
+  assert (Hkok : forall k, In k keys -> exists dp, In dp posts /\ k = key_of dp /\ closable_dp dp = true).
+  { intros k Hin. destruct (keys_sound sp k posts [] Hin) as [[]|(dp & A & B & _ & D)]. exists dp. repeat split; assumption. }
+  transitivity (qsum (fun k => qsum (fun dp => g (fst k) (snd k) *
+     (if ((lo <=? fst dp) && (fst dp <=? hi))%Z && keq (key_of dp) k then dvalue (p_qty (snd dp)) else 0)) posts) keys).
+  { apply qsum_ext. intros k _. rewrite sum_between_value, <- qsum_scale. reflexivity. }
+  rewrite qsum_swap. apply qsum_ext. intros dp Hdp.
+  destruct ((lo <=? fst dp)%Z && (fst dp <=? hi)%Z) eqn:Er; cbn [andb].
+  2: { apply qsum_zero. intros; ring. }
+  assert (Hsp : span_dp sp dp = true) by (unfold span_dp; apply Hr; lia).
+  assert (Hadp : account_ok (fst (key_of dp)) = true) by (apply Hok; exact Hdp).
+  transitivity (qsum (fun k => (g (p_acc (snd dp)) (p_com (snd dp)) * dvalue (p_qty (snd dp))) * (if keq (key_of dp) k then 1 else 0)) keys).
+  { apply qsum_ext. intros k Hk. destruct (keq (key_of dp) k) eqn:Ek; [|ring].
+    destruct (Hkok k Hk) as (dp' & Hin' & -> & _).
+    assert (E : key_of dp = key_of dp') by (apply keq_eq; [exact Hadp|apply Hok; exact Hin'|exact Ek]).
+    rewrite <- E. unfold key_of. cbn [fst snd]. ring. }
+  rewrite qsum_scale. fold (kcount (key_of dp) keys). rewrite (Hnd (key_of dp)).
+  destruct (closable_dp dp) eqn:Ec.
+  - unfold keys. rewrite (keys_complete sp dp posts [] Hdp Hsp Ec). ring.
+  - destruct (existsb (keq (key_of dp)) keys) eqn:Ex; [|ring]. exfalso.
+    apply existsb_exists in Ex. destruct Ex as (k & Hk & Ek).
+    destruct (Hkok k Hk) as (dp' & Hin' & -> & Hc').
+    assert (E : key_of dp = key_of dp') by (apply keq_eq; [exact Hadp|apply Hok; exact Hin'|exact Ek]).
+    unfold closable_dp in *. unfold key_of in E. inversion E as [[E1 E2]]. rewrite E1 in Ec. congruence.
+Qed.
+
+Fixpoint chain_le (prev : Z) (ps : list period) : Prop :=
+  match ps with [] => True | p :: rest => (prev <= p_start p)%Z /\ chain_le (p_start p) rest end.
+
+Section SpecPosting.
+  Variable cfg : balance_cfg.
+  Variable row : account.
+  Variable c0 : commodity.
+  Variable col0 : Z.
+
+  (* what one posting adds through the closing entries of the periods ps *)
+  Fixpoint RS (prev : Z) (ps : list period) (dp : Z * posting) : Q :=
+    match ps with
+    | [] => 0
+    | p :: rest =>
+      (if ((prev <=? fst dp) && (fst dp <=? p_start p - 1))%Z && closable_dp dp
+       then GS cfg row c0 col0 (p_end p) (p_acc (snd dp)) (p_com (snd dp)) * dvalue (p_qty (snd dp)) else 0)
+      + RS (p_start p) rest dp
+    end.
+
+  Lemma CE_RS sp posts : posts_ok posts -> forall ps prev,
+    (p_start sp <= prev)%Z ->
+    Forall (fun p => (p_start sp <= p_start p)%Z /\ (p_start p - 1 <= p_end sp)%Z) ps ->
+    CE cfg row c0 col0 posts (closable_keys sp posts) prev ps == qsum (RS prev ps) posts.
+  Proof.
+    intros Hok. induction ps as [|p ps IH]; intros prev Hprev Hall; cbn [CE].
+    - symmetry. apply qsum_const0.
+    - inversion Hall as [|? ? [Hp1 Hp2] Hrest]; subst.
+      rewrite (IH (p_start p) Hp1 Hrest).
+      rewrite (regroup sp posts (GS cfg row c0 col0 (p_end p)) prev (p_start p - 1) Hok).
+      + rewrite <- qsum_plus. apply qsum_ext. intros dp _. reflexivity.
+      + intros d Hd. unfold in_span. lia.
+  Qed.
+
+  Lemma RS_before : forall ps prev dp, chain_le prev ps -> (fst dp < prev)%Z -> RS prev ps dp == 0.
+  Proof.
+    induction ps as [|p ps IH]; intros prev dp Hc Hlt; cbn [RS]; [reflexivity|].
+    destruct Hc as [H1 H2]. rewrite (IH _ _ H2) by lia.
+    replace (prev <=? fst dp)%Z with false by lia. cbn [andb]. ring.
+  Qed.
+
+  Lemma RS_find : forall ps prev dp, chain_le prev ps -> (prev <= fst dp)%Z ->
+    RS prev ps dp ==
+    if closable_dp dp then
+      match find (fun p => (fst dp <? p_start p)%Z) ps with
+      | Some p => GS cfg row c0 col0 (p_end p) (p_acc (snd dp)) (p_com (snd dp)) * dvalue (p_qty (snd dp))
+      | None => 0
+      end
+    else 0.
+  Proof.
+    induction ps as [|p ps IH]; intros prev dp Hc Hle; cbn [RS find].
+    - destruct (closable_dp dp); reflexivity.
+    - destruct Hc as [H1 H2]. destruct (fst dp <? p_start p)%Z eqn:E.
+      + rewrite (RS_before _ _ _ H2) by lia.
+        replace ((prev <=? fst dp)%Z && (fst dp <=? p_start p - 1)%Z) with true by lia. cbn [andb].
+        destruct (closable_dp dp); ring.
+      + rewrite (IH _ _ H2) by lia.
+        replace ((prev <=? fst dp)%Z && (fst dp <=? p_start p - 1)%Z) with false by lia. cbn [andb]. ring.
+  Qed.
+End SpecPosting.
